@@ -3,7 +3,7 @@
    instantiated with them. *)
 From Coq Require Import List ZArith Lia Bool.
 From RG.Base Require Import Outcome GoSlice.
-From RG.Adapter Require Import Str Model Conc NewEngine.
+From RG.Adapter Require Import Str Model Conc NewEngine Alias.
 From RGW Require Import Gen_Adapter Inst_Adapter.
 Import ListNotations.
 Local Open Scope Z_scope.
@@ -184,6 +184,25 @@ Print Assumptions C19_new_engine_failure_reaches_first_pass.
 Theorem C19_run_context_forwards_the_pass : run_context_ok gen_run_context = true.
 Proof. exact gen_run_context_ok. Qed.
 Print Assumptions C19_run_context_forwards_the_pass.
+
+(* []byte values are references. TextEdit.NewText is read by the driver AFTER the pass -- after the engine has run the other
+   files of the package and, with the cached engine, other packages on the same pooled RunnerState. For ANY history of
+   suggestions (every file of every pass, whatever buffers the runner states hold at the start) produced by the sites of
+   package ruleguard that make a Suggestion.Replacement (regenerated, classified), with the adapter filling NewText the
+   way the regenerated callback does (the slice it was handed / a copy): what is read at the end is what was reported. *)
+Theorem C19_text_edits_read_after_the_pass_are_the_suggestions :
+  forall m0 ps, Forall (produced_by gen_replacement_sites) ps ->
+    read_late (al_run gen_adapter_keeps m0 ps) = reported (al_run gen_adapter_keeps m0 ps).
+Proof. exact gen_text_edits_stable. Qed.
+Print Assumptions C19_text_edits_read_after_the_pass_are_the_suggestions.
+
+(* ... and the hypothesis on the sites is not idle: a buffer kept by a runner state, truncated and written again for the
+   next file, changes what an adapter that keeps the slice shows afterwards *)
+Example c19_shared_buffer :
+  reported (al_run KeepAlias ex_mem ex_history) = [ex_long; ex_short] /\
+  read_late (al_run KeepAlias ex_mem ex_history) <> reported (al_run KeepAlias ex_mem ex_history) /\
+  read_late (al_run KeepCopy ex_mem ex_history) = [ex_long; ex_short].
+Proof. split; [reflexivity|]. split; [vm_compute; discriminate|reflexivity]. Qed.
 
 (* non-vacuity: concrete, non-trivial instances *)
 Example c19_report :
